@@ -21,6 +21,7 @@ import (
 	"strings"
 	"sync"
 	"sync/atomic"
+	"syscall"
 	"time"
 
 	"github.com/gorilla/websocket"
@@ -236,6 +237,12 @@ type c14WS struct {
 
 func c14WrapWS(conn *websocket.Conn, peerID string) *c14WS {
 	w := &c14WS{c: conn, PeerID: peerID, msgs: make(chan c14Msg, 8192), pongs: make(chan string, 64), closed: make(chan struct{})}
+	// gorilla's default close handler makes ReadMessage return ErrCloseSent (not a CloseError)
+	// when the close frame is the reply to our own close; we want the CloseError.
+	conn.SetCloseHandler(func(code int, text string) error {
+		_ = conn.WriteControl(websocket.CloseMessage, websocket.FormatCloseMessage(code, ""), time.Now().Add(time.Second))
+		return nil
+	})
 	conn.SetPongHandler(func(s string) error {
 		select {
 		case w.pongs <- s:
@@ -259,9 +266,10 @@ func (w *c14WS) reader() {
 			var ce *websocket.CloseError
 			if errors.As(err, &ce) && ce.Code != websocket.CloseAbnormalClosure {
 				w.gotClose = true
-			} else {
+			} else if (errors.As(err, &ce) && ce.Code == websocket.CloseAbnormalClosure) || errors.Is(err, io.EOF) || errors.Is(err, io.ErrUnexpectedEOF) || errors.Is(err, syscall.ECONNRESET) {
 				// EOF / reset without a close frame: the server's side of the TCP connection is gone
 				w.tcpEOFAt = now
+				w.eofErr = err.Error()
 			}
 			gc := w.gotClose
 			w.mu.Unlock()
